@@ -190,7 +190,10 @@ func (p Params) String() string {
 
 // validateBlockReward validates the BlockReward param
 func validateBlockReward(v interface{}) error {
-	_ = v.(sdk.Coin)
+	reward := v.(sdk.Coin)
+	if reward.Amount.IsNil() || reward.Amount.IsNegative() {
+		return errors.New("invalid block reward: negative")
+	}
 
 	return nil
 }
